@@ -281,7 +281,22 @@ def run_case(case):
             if n not in reach and (t.base is not None or any(it.env.get(m) is t for m in reach)):
                 continue    # a view outside the graph reports the corresponding view of its base's gradient (C06)
             if (n in reach) != (grads.get(n) is not None):
-                viol.append({"monitor": "M-path", "mech": "nonconstant-without-grad" if n in reach else "grad-through-constant",
+                # mechanism probe for the known finding: n is a view (MyGrad: base is a non-constant tensor) reached, walking the view
+                # operations back towards that base, through a CONSTANT view
+                blocked = False
+                if n in reach and t.base is not None and not t.base.constant:
+                    cur, hops = n, 0
+                    while hops < 30:
+                        stc = next((q for q in prog if q.get("out") == cur and q["k"] == "call"), None)
+                        par = next((r for r in (mgrun.stmt_refs(stc) if stc else []) if types.get(r, ("", ""))[0] == "tensor"), None)
+                        pt = it.env.get(par) if par else None
+                        if pt is None or not (pt is t.base or pt.base is t.base):
+                            break
+                        if pt.constant:
+                            blocked = True
+                            break
+                        cur, hops = par, hops + 1
+                viol.append({"monitor": "M-path", "mech": "nonconstant-without-grad" if n in reach else "grad-through-constant", "blocked_by_constant_view": blocked,
                              "msg": f"{n} (non-constant) " + ("is connected to a back-propagated tensor through non-constant tensors but holds no gradient"
                                                                if n in reach else "is connected only through constants (or not at all) yet holds a gradient")})
     # O-meta: constant leaf tensors -> plain arrays
@@ -322,7 +337,12 @@ def run_case(case):
                 continue
             cnt["meta_compared"] = cnt.get("meta_compared", 0) + 1
             h = g2[n]
-            if (g is None) != (h is None) or (g is not None and not np.array_equal(g, h, equal_nan=True)):
+            same = (g is None) == (h is None) and (g is None or np.array_equal(g, h, equal_nan=True))
+            if not same and g is not None and h is not None and n.startswith("g2") and g.shape == h.shape:
+                # the second graph's leaf multiplies a shared constant of arbitrary provenance: its gradient is a SUM over that constant, whose
+                # pairwise-summation order follows the memory layout (tensor-derived vs array-derived operand): last-bit differences are expected
+                same = bool(np.allclose(g, h, rtol=1e-13, atol=1e-300, equal_nan=True))
+            if not same:
                 viol.append({"monitor": "O-meta", "mech": "constant-tensor-vs-array",
                              "msg": f"{n}.grad differs when constant tensors {sorted(replaced)} are passed as plain arrays: {None if g is None else g.ravel()[:3]} vs {None if h is None else h.ravel()[:3]}"})
     if any(st["k"] == "backward" and st["tgt"] == "L2" for st in prog):
@@ -332,3 +352,10 @@ def run_case(case):
     sets["kinds"] = ["lattice" if case.get("lattice") else "random"]
     sig = mgrun.struct_sig(prog) + repr(sorted(flags.items()))
     return {"viol": viol[:4], "counters": cnt, "sets": sets, "sig": sig, "nontrivial": nconst >= 1 and nnon >= 1}
+
+
+def classify(v, case):
+    m = v.get("mech") or v["monitor"]
+    if m == "nonconstant-without-grad" and v.get("blocked_by_constant_view"):
+        return "view-of-constant-view-reads-no-grad"
+    return m
